@@ -733,7 +733,10 @@ class Canon:
         h = self.helper(f, a)
         bl = _Blocks()
         bl.try_else = True
-        if not _returns_in_tail(bl.block(_strip_doc(copy.deepcopy(h.node).body), "func")):
+        probe = copy.deepcopy(h.node)
+        probe.body = _strip_doc(probe.body)
+        probe = _Small().visit(self._with_tables(h, probe))   # (as the helper will be prepared: a loop over a literal table is written once per row)
+        if not _returns_in_tail(bl.block(probe.body, "func")):
             return None
         self._k["arg " + h.name] = self._k.get("arg " + h.name, 0) + 1
         k = self._k["arg " + h.name]
@@ -2059,8 +2062,20 @@ class _FoldConst(ast.NodeTransformer):
             return n.body if n.test.value else n.orelse
         return n
 
+    def visit_Subscript(self, n):
+        self.generic_visit(n)
+        # (a, b, c)[2] -> c     (a literal tuple of pure elements indexed by a literal)
+        if isinstance(n.ctx, ast.Load) and isinstance(n.value, ast.Tuple) and isinstance(n.slice, ast.Constant) and isinstance(n.slice.value, int) and not isinstance(n.slice.value, bool) \
+                and -len(n.value.elts) <= n.slice.value < len(n.value.elts) and all(_is_pure(e, reads_ok=True) and not isinstance(e, ast.Starred) for e in n.value.elts):
+            return n.value.elts[n.slice.value]
+        return n
+
     def visit_Call(self, n):
         self.generic_visit(n)
+        # '_'.join(('a', 'b'))  ->  'a_b'
+        if isinstance(n.func, ast.Attribute) and n.func.attr == "join" and isinstance(n.func.value, ast.Constant) and isinstance(n.func.value.value, str) and len(n.args) == 1 and not n.keywords \
+                and isinstance(n.args[0], (ast.Tuple, ast.List)) and n.args[0].elts and all(isinstance(e, ast.Constant) and isinstance(e.value, str) for e in n.args[0].elts):
+            return ast.copy_location(ast.Constant(value=n.func.value.value.join(e.value for e in n.args[0].elts)), n)
         # getattr(obj, 'name')  ->  obj.name
         if isinstance(n.func, ast.Name) and n.func.id == "getattr" and len(n.args) == 2 and not n.keywords and isinstance(n.args[1], ast.Constant) and isinstance(n.args[1].value, str) \
                 and n.args[1].value.isidentifier():
